@@ -192,7 +192,13 @@ def main():
         # properties decided by their own engine (C19): it returns the same kind of record
         return propcfg.CUSTOM[pid](pid, tier, seed, evid, t0, finish)
 
-    pr = proof_stage(pid, tier) if okb else {"ok": False, "obligations": 0, "discharged": 0, "theorems": [], "axioms": [], "detail": "not built", "checker_cmd": ""}
+    if pid in propcfg.NO_THEOREM:
+        # no theorem of its own yet: the development must still build (it is what the correspondence runs)
+        pr = {"ok": okb, "obligations": 0, "discharged": 0, "theorems": [], "axioms": [], "detail": "" if okb else "not built",
+              "checker_cmd": "make -C coq (the whole development, full .vo build)"}
+        evid["level"] = "other"
+    else:
+        pr = proof_stage(pid, tier) if okb else {"ok": False, "obligations": 0, "discharged": 0, "theorems": [], "axioms": [], "detail": "not built", "checker_cmd": ""}
     workdir = os.path.join(ROOT, "work", pid)
     shutil.rmtree(workdir, ignore_errors=True)
     os.makedirs(workdir, exist_ok=True)
@@ -301,6 +307,8 @@ def main():
         "oracle_hits": len(hits), "known_class_hits": len(kc_hits),
     })
     evid["assumptions"] = propcfg.assumptions(pid)
+    if pid in propcfg.NO_THEOREM:
+        cov["explanation"] = propcfg.NO_THEOREM[pid]
     return finish(pid, evid, violations, known_lines, t0)
 
 def finish(pid, evid, violations, known_lines, t0):
